@@ -104,7 +104,7 @@ Qed.
    the value of a Scalar right-hand document, the merge loop then runs on the
    created node. *)
 Theorem missing_created_scalar : forall segs value vo d d' pc next' ri l w out,
-  wf_doc d -> creates d segs = true ->
+  wf_doc d -> creates d segs = true -> null_prefix d segs = false ->
   create_query lit segs value vo d = ROk (d', pc, next') ->
   resolve_loc d' segs = Some (l, w) ->
   is_none (NLeaf ri value) = false ->
@@ -115,7 +115,7 @@ Theorem missing_created_scalar : forall segs value vo d d' pc next' ri l w out,
      exists n', lookup out p = Some n' /\ embeds n n' /\ node_info n' = node_info n /\
                 (is_leaf n = true -> n' = n)).
 Proof.
-  intros segs value vo d d' pc next' ri l w out Hwf Hcr Hq Hl Hn Hid Hm.
+  intros segs value vo d d' pc next' ri l w out Hwf Hcr Hnp Hq Hl Hn Hid Hm.
   destruct (resolve_loc_sound _ _ _ _ Hl) as [Hlook [Hres _]].
   destruct (create_query_doc _ _ _ _ _ _ _ _ Hwf Hcr Hq) as [[w0 [fresh [vo' [R1 R2]]]] _].
   rewrite Hres in R1. inversion R1; subst w0.
@@ -125,7 +125,8 @@ Proof.
     destruct (merge_target_scalars _ _ _ _ Hleaf Hid Hnew) as [i Ei]. subst new. eauto.
   - intros p n Hp Hlv.
     pose proof (create_query_frame _ _ _ _ _ _ _ _ Hwf Hq) as He.
-    destruct (embeds_lookup p d d' n He Hp) as [n' [A B]].
+    rewrite Hnp in He.
+    destruct (embeds_lookup None p d d' n He Hp) as [n' [A B]].
     exists n'. destruct (embeds_info _ _ B) as [I1 I2].
     rewrite (merge_at_frame lit cfg false [l] d' (NLeaf ri value) out p Hm); auto.
 Qed.
